@@ -199,7 +199,8 @@ func (in *Interp) visitInstr(fr *frame, instr ssa.Instruction) continuation {
 			in.spPending = in.instrumented(fr.fn)
 		}
 		fr.env[instr] = in.unop(instr, fr.get(instr.X))
-		if instr.Op == token.ARROW {
+		if instr.Op == token.ARROW && !onlyReturned(instr) {
+			// (`return <-ch` has no place for the native "completed" scheduling point)
 			in.spPost(fr.fn)
 		}
 	case *ssa.BinOp:
@@ -1057,4 +1058,25 @@ func (in *Interp) event(kind string, args ...value) {
 func (in *Interp) pos() string {
 	p := in.P.Fset.Position(in.curPos)
 	return fmt.Sprintf("%s:%d", strings.TrimPrefix(p.Filename, "/repo/"), p.Line)
+}
+
+// onlyReturned reports whether the value of v flows only into return instructions.
+func onlyReturned(v ssa.Value) bool {
+	refs := v.Referrers()
+	if refs == nil || len(*refs) == 0 {
+		return false
+	}
+	for _, r := range *refs {
+		switch r := r.(type) {
+		case *ssa.Return:
+		case *ssa.Extract:
+			if !onlyReturned(r) {
+				return false
+			}
+		case *ssa.DebugRef:
+		default:
+			return false
+		}
+	}
+	return true
 }
